@@ -568,6 +568,8 @@ def set_item(interp, o, k, v):
 
 
 def del_item(interp, o, k):
+    if isinstance(o, AssocDict):
+        return o.delete(interp, k)
     if isinstance(o, SObj):
         return interp.call_dunder(o, "__delitem__", k)
     if isinstance(o, (list, dict)):
@@ -621,14 +623,34 @@ class AssocDict:
     """dict whose keys may be symbolic (association list; last binding wins).  Stands for a real
     dict in proofs about code that stores / looks up symbolic keys."""
 
+    DELETED = object()
+
     def __init__(self, entries=()):
         self.entries = list(entries)
 
     def lookup(self, interp, k):
         for key, val in reversed(self.entries):
             if interp.test(interp.eq(key, k)):
+                if val is AssocDict.DELETED:
+                    return False, None
                 return True, val
         return False, None
+
+    def live_entries(self):
+        """(key, value) pairs that may still be present (later bindings shadow earlier ones only when the keys
+        are equal, which the caller decides symbolically)"""
+        return [(k, v) for k, v in self.entries if v is not AssocDict.DELETED]
+
+    def delete(self, interp, k):
+        found, _ = self.lookup(interp, k)
+        if not found:
+            interp.py_raise(KeyError, OPAQUE)
+        self.entries.append((k, AssocDict.DELETED))
+
+    def values(self):
+        if any(v is AssocDict.DELETED for _, v in self.entries):
+            raise Unsupported("values() of a symbolic-key dict after deletions")
+        return [v for _, v in self.entries]
 
     def get(self, k, default=None):
         from .values import interp as _i
@@ -660,6 +682,18 @@ def symset_attr(interp, st, name):
 def assoc_attr(interp, d, name):
     if name == "get":
         return d.get
+    if name == "values":
+        return d.values
+    if name == "pop":
+        def pop(k, *default):
+            found, v = d.lookup(interp, k)
+            if not found:
+                if default:
+                    return default[0]
+                interp.py_raise(KeyError, OPAQUE)
+            d.entries.append((k, AssocDict.DELETED))
+            return v
+        return pop
     if name == "clear":
         def clear():
             d.entries.clear()
@@ -854,7 +888,8 @@ def b_bytes(interp, *args, **kwargs):
 
 def b_bytearray(interp, *args, **kwargs):
     if contains_sym(args):
-        raise Unsupported("bytearray of symbolic data")
+        # a bytearray with symbolic content is modelled by an (immutable) symbolic bytes value
+        return b_bytes(interp, *args, **kwargs)
     return interp.fresh(interp.native(bytearray, *args, **kwargs))
 
 
@@ -1031,12 +1066,14 @@ def b_super(interp, *args):
 
 
 def b_iter(interp, it, *a):
-    if isinstance(it, GenObj):
+    if isinstance(it, GenObj) or hasattr(it, "next_value"):
         return it
     raise Unsupported("iter()")
 
 
 def b_next(interp, it, *default):
+    if hasattr(it, "next_value"):
+        return it.next_value()      # a generator abstracted by its contract
     raise Unsupported("next() (needs a generator contract)")
 
 
